@@ -60,7 +60,31 @@ func loadFindings() []finding {
 	return f.Findings
 }
 
+// ChildModes are auxiliary entry points of the check binary (fresh-process
+// executions that a check spawns itself): `check --child <name> args...`.
+var ChildModes = map[string]func(args []string){}
+
+// SpawnChild runs this binary in a child mode and returns its stdout.
+func SpawnChild(name string, stdin string, args ...string) (string, error) {
+	self, _ := os.Executable()
+	cmd := exec.Command(self, append([]string{"--child", name}, args...)...)
+	cmd.Env = append(os.Environ(), "GOMAXPROCS=1")
+	cmd.Stdin = strings.NewReader(stdin)
+	out, err := cmd.Output()
+	return string(out), err
+}
+
 func Main() {
+	if len(os.Args) > 2 && os.Args[1] == "--child" {
+		f := ChildModes[os.Args[2]]
+		if f == nil {
+			fmt.Fprintln(os.Stderr, "unknown child mode", os.Args[2])
+			os.Exit(2)
+		}
+		runtime.GOMAXPROCS(1)
+		f(os.Args[3:])
+		return
+	}
 	prop := flag.String("prop", "", "property id")
 	tier := flag.String("tier", "", "quick|thorough")
 	worker := flag.Bool("worker", false, "internal: run as worker")
